@@ -105,13 +105,27 @@ func drain(vx *vaxis.Vaxis) {
 	}
 }
 
+// within runs f with a watchdog; a panic inside f is a result ("panic"), not a crash of the harness.
+var lastPanic string
+
 func within(d time.Duration, f func()) bool {
-	done := make(chan struct{})
-	go func() { f(); close(done) }()
+	done := make(chan string, 1)
+	go func() {
+		defer func() {
+			if e := recover(); e != nil {
+				done <- fmt.Sprint(e)
+				return
+			}
+			done <- ""
+		}()
+		f()
+	}()
 	select {
-	case <-done:
+	case p := <-done:
+		lastPanic = p
 		return true
 	case <-time.After(d):
+		lastPanic = ""
 		return false
 	}
 }
@@ -209,6 +223,12 @@ func session(r *hx.Run, rng *gen.Rng, id string, sub uint32, disableMouse bool, 
 			r.Count("close-hang")
 			return
 		}
+		if lastPanic != "" {
+			r.Emit(fmt.Sprintf("close %d %d %d %d %d %d", bi(cnv), bi(clv), bi(closed), crow, ccol, cstyle), "panic")
+			r.Count("close-panic")
+			closed = true
+			return
+		}
 		r.Emit(fmt.Sprintf("close %d %d %d %d %d %d", bi(cnv), bi(clv), bi(closed), crow, ccol, cstyle), hx.Hex(string(fc.Take())))
 		closed = true
 		cnv = false
@@ -228,6 +248,10 @@ func session(r *hx.Run, rng *gen.Rng, id string, sub uint32, disableMouse bool, 
 			pending()
 			if !within(3*time.Second, func() { vx.Suspend() }) {
 				r.Emit(fmt.Sprintf("suspend %d %d %d %d %d", bi(cnv), bi(clv), crow, ccol, cstyle), "hang")
+				return nil
+			}
+			if lastPanic != "" {
+				r.Emit(fmt.Sprintf("suspend %d %d %d %d %d", bi(cnv), bi(clv), crow, ccol, cstyle), "panic")
 				return nil
 			}
 			r.Emit(fmt.Sprintf("suspend %d %d %d %d %d", bi(cnv), bi(clv), crow, ccol, cstyle), hx.Hex(string(fc.Take())))
@@ -254,6 +278,11 @@ func session(r *hx.Run, rng *gen.Rng, id string, sub uint32, disableMouse bool, 
 		if !ok {
 			r.Emit("closesuspended", "hang")
 			r.Count("close-while-suspended-hang")
+			return nil
+		}
+		if lastPanic != "" {
+			r.Emit("closesuspended", "panic")
+			r.Count("close-panic")
 			return nil
 		}
 		r.Emit("closesuspended", hx.Hex(string(fc.Take())))
